@@ -12,6 +12,7 @@ from checks import rectlib as L
 
 PID = 'C20'
 PRIMINGS = [(0, 0), (7, 1), (7, 2), (3, 1), (5, 2)]
+SAMPLES = []
 
 
 # ------------------------------------------------------------------------------------------ (a) scan line / removeoverlaps
@@ -56,6 +57,26 @@ def part_a(res, rng, exe, drv, n_inst, stats):
                 else:
                     cmds.append(L.cmd_G_impl(inst, int(what[1]), pk, pd))
                 keys.append((k, what, pk, pd, fixed, third))
+    # the same generator calls in a translated frame (integer offsets over the instance's scale: exact)
+    tcmds, tkeys = [], []
+    for k, inst in enumerate(insts):
+        tx, ty = rng.range(-50, 50) * inst.scale, rng.range(-50, 50) * inst.scale
+        tin = L.Inst(inst.scale, [(r[0] + tx, r[1] + tx, r[2] + ty, r[3] + ty) for r in inst.rects], inst.xb, inst.yb, inst.family)
+        for mode in (0, 1, 2):
+            tcmds += [L.cmd_G_impl(inst, mode), L.cmd_G_impl(tin, mode)]
+            tkeys.append((k, mode, tx // inst.scale, ty // inst.scale))
+    rc, tout, err, dtt = L.run_lines([exe], tcmds)
+    for i, (k, mode, tx, ty) in enumerate(tkeys):
+        if 2 * i + 1 >= len(tout):
+            break
+        a, b = L.parse_impl_C(tout[2 * i]), L.parse_impl_C(tout[2 * i + 1])
+        stats['a_translated'] += 1
+        if a['cs'] != b['cs'] and len(res.violations) < 3:
+            res.violation({'what': 'translating every rectangle by an exactly representable offset changes the generated constraints',
+                           'call': L.MODES[mode], 'input': insts[k].to_json(), 'offset': [tx, ty],
+                           'constraints': [[x, y, float(g)] for x, y, g in a['cs']],
+                           'constraints_translated_frame': [[x, y, float(g)] for x, y, g in b['cs']],
+                           'replay': 'printf "%s\\n%s\\n" | build/bin/c09_rect-exc-*' % (tcmds[2 * i], tcmds[2 * i + 1])})
     rc, out, err, dt = L.run_lines([exe], cmds)
     if rc != 0 or len(out) != len(cmds):
         res.violation({'what': 'harness c09_rect crashed during the replay run', 'rc': rc, 'stderr': err[-1500:],
@@ -76,6 +97,9 @@ def part_a(res, rng, exe, drv, n_inst, stats):
             if flag >= 10:
                 stats['a_prime_not_verified'] += 1
             payload.append(' '.join([f[0], str(flag % 10)] + f[2:]))
+        if len(SAMPLES) < 2 and what == 'R' and inst.has_tie(0):
+            SAMPLES.append({'call': 'removeoverlaps under 5 allocator primings', 'input': inst.to_json(), 'identical_results': len(set(payload)) == 1,
+                            'result': describe(runs[0][2])})
         if len(set(payload)) > 1:
             stats['a_differ'] += 1
             if reported < 3:
@@ -201,6 +225,8 @@ def part_b(res, rng, exe, n_inst, stats):
                 stats['b_unsat_translate_differs'] += 1
         else:
             stats['b_translate_ok'] += 1
+            if len(SAMPLES) < 4:
+                SAMPLES.append({'call': 'IncSolver twice / translated / permuted', 'input': inp, 't': str(t), 'result': [float(x) for x in first[0]]})
             stats['b_translate_bit_exact'] += all((b - t) == a for a, b in zip(first[0], trans[0]))
         if not unsat and permd is not None and not any(permd[1]):
             back = [permd[0][perm[i]] for i in range(len(des))]
@@ -325,6 +351,9 @@ def part_c(res, rng, exe, n_inst, stats):
                            'replay': 'printf "%s\\n%s\\n" | build/bin/c20_replay-plain-*' % (c[0], c[3])})
         else:
             stats['c_translate_ok'] += 1
+            if len(SAMPLES) < 6:
+                SAMPLES.append({'call': 'libavoid twice / translated / 8 symmetries / permuted', 'input': inp, 'offset': [str(tx), str(ty)],
+                                'cost_len_bends': [cost(r, pen) for r in base]})
         bc = [cost(r, pen) for r in base]
         for idx, name in [(4, 'shapes inserted in permuted order %s' % sperm)] + [(4 + s, 'symmetry %d of the square' % s) for s in range(1, 8)]:
             other = parse_A(o[idx])
@@ -342,6 +371,23 @@ def part_c(res, rng, exe, n_inst, stats):
     return dt
 
 
+def part_p(res, rng, exe, drv, n, stats):
+    """PseudoRandom: compiled cola::PseudoRandom against the extracted LCG model, exactly (float(model value) == implementation value)"""
+    cmds = ['P %d %d' % (s, 40) for s in [0, 1, 2, 3, 2 ** 31 - 1, 2 ** 31, 2 ** 32 - 1] + [rng.below(2 ** 32) for _ in range(n)]]
+    rc, a, err, _ = L.run_lines([exe], cmds)
+    rc2, b, err2, _ = L.run_lines([drv, exe], cmds)
+    bad = []
+    for c, x, y in zip(cmds, a, b):
+        va = [float.fromhex(v) for v in x.split()[1:]]
+        vb = [float(L.modq(v)) for v in y.split()[1:]]
+        stats['p_streams'] += 1
+        if va != vb:
+            bad.append({'what': 'PseudoRandom model differs from the implementation', 'command': c, 'implementation': va[:6], 'model': vb[:6]})
+    if len(a) != len(cmds) or len(b) != len(cmds):
+        bad.append({'what': 'PseudoRandom run incomplete', 'stderr': (err + err2)[-800:]})
+    return bad
+
+
 def run(tier):
     res = C.Result(PID, tier, 'proof')
     info = C.prove(res, PID, gen_modules=['Geometry'])
@@ -350,24 +396,26 @@ def run(tier):
     thorough = tier == 'thorough'
     rng = C.SplitMix64(C.get_seed() ^ 0xC20)
     exe_r, drv = L.build('exc')
-    exe = C.build_harness('c20_replay', ['libvpsc', 'libavoid'], 'plain')
+    exe = C.build_harness('c20_replay', ['libvpsc', 'libavoid'], 'plain', extra_srcs=[os.path.join(C.COLA, 'libcola', 'pseudorandom.cpp')])
     stats = {k: 0 for k in ('a_groups', 'a_runs', 'a_differ', 'a_prime_not_verified', 'b_instances', 'b_threw', 'b_unsat', 'b_translate_ok',
                             'b_translate_bit_exact', 'b_unsat_translate_differs', 'b_permute_ok', 'c_scenes', 'c_orthogonal', 'c_threw',
-                            'c_translate_ok', 'c_cost_comparisons')}
+                            'c_translate_ok', 'c_cost_comparisons', 'p_streams', 'a_translated')}
     ta = part_a(res, rng.fork(), exe_r, drv, 1500 if thorough else 400, stats)
     tb = part_b(res, rng.fork(), exe, 6000 if thorough else 1500, stats)
     tc = part_c(res, rng.fork(), exe, 1200 if thorough else 250, stats)
+    corr_fail = part_p(res, rng.fork(), exe, drv, 400 if thorough else 60, stats)
     res.cov.update({'evaluations': stats['a_runs'] + 5 * stats['b_instances'] + 12 * stats['c_scenes'],
                     'distinct_nontrivial': stats['a_groups'] + stats['b_translate_ok'] + stats['c_cost_comparisons'],
                     'rule': 'non-trivial = groups of identical scan-line / removeoverlaps calls on rectangle sets with equal centres run under 5 allocator '
                             'primings + VPSC instances whose translated run was compared + route-cost comparisons under symmetries / permutations',
-                    'exhaustive': False, 'counts': stats, 'samples': [],
+                    'exhaustive': False, 'counts': stats, 'samples': SAMPLES[:6],
                     'traces_validated_against_impl': stats['a_runs'] + 5 * stats['b_instances'] + 12 * stats['c_scenes'],
                     'timings_s': {'scanline_replay': round(ta, 2), 'incsolver_replay': round(tb, 2), 'routing_replay': round(tc, 2)}})
-    if not res.violations and not info['ok']:
+    res.cov['correspondence_disagreements'] = corr_fail[:3]
+    if not res.violations and (not info['ok'] or corr_fail):
         res.violation({'what': 'proof obligation no longer checks (or cpp2v could not translate a predicate); the replay search found no failing input',
                        'broken_files': info.get('broken'), 'broken_lemmas': info.get('broken_lemmas'), 'unsupported': info.get('unsupported'),
-                       'forbidden': info.get('forbidden'), 'coq_log_tail': info['log'][-3000:]}, no_input=True)
+                       'forbidden': info.get('forbidden'), 'correspondence': corr_fail[:3], 'coq_log_tail': info['log'][-3000:]}, no_input=True)
     return res.finish()
 
 
@@ -378,4 +426,28 @@ def replay(path):
 
 def warm():
     L.build('exc')
-    C.build_harness('c20_replay', ['libvpsc', 'libavoid'], 'plain')
+    C.build_harness('c20_replay', ['libvpsc', 'libavoid'], 'plain', extra_srcs=[os.path.join(C.COLA, 'libcola', 'pseudorandom.cpp')])
+
+
+META = {
+    'property_id': PID,
+    'level_claimed': {
+        'category': 'proof',
+        'text': 'Coq theorems that make the hidden inputs explicit. Scan line of libvpsc (hand-written model of rectangle.cpp:110-389, compared '
+                'exactly with the compiled generators on every run): with the original CmpNodePos (centre, address) the generated constraints are '
+                'independent of the address oracle iff no two centres are equal (scanline_addr_independent; scanline_addr_refuted is the defect F-d, '
+                'replayed on the real code by allocator priming); with the repaired CmpNodePos (centre, Variable::id, address) and pairwise distinct '
+                'ids they are independent of it outright (scanline_deterministic); translating all rectangles changes nothing (scanline_translate). '
+                'libavoid predicates vecDir / segmentIntersect as regenerated by cpp2v: invariant under translation and under the 8 symmetries of '
+                'the square with the orientation sign tracked. PseudoRandom: explicit LCG recurrence. NOT proved: vpsc_translate / vpsc_permute over '
+                'the IncSolver model and route-cost invariance of the router; these are covered by replay runs only.',
+        'design_ref': 'DESIGN.md 5.20'},
+    'level_note': 'Trusted: Coq kernel; cpp2v.py + clang JSON AST for Gen/Geometry.v; the hand-written models Rect/ScanlineModel.v, Rect/RectBase.v, '
+                  'Cola/PseudoRandomModel.v (validated by exact correspondence on every run, not derived from the source); extraction (ExtrOcamlBasic) and '
+                  'the OCaml/C++ drivers; glibc malloc behaviour used for the priming (verified at run time). Replay-only (validation, not proof): IncSolver '
+                  'twice / translated (1e-9; bit-exact is not claimed because block positions are weighted means) / permuted; libavoid routes twice, '
+                  'translated exactly, cost under the 8 symmetries and under permuted insertion order, on separated integer rectangles. Residual of F-d: '
+                  'CmpNodePos still falls back to the address when two Variables have equal ids (callers in /repo use distinct ids). Dependence on '
+                  'uninitialised memory can only be observed, not proved absent.',
+    'technique': 'Coq proof over hand-written + cpp2v-generated Gallina, correspondence, and in-process replay runs with allocator priming',
+}
